@@ -304,6 +304,8 @@ class StmtMixin:
         if o.k in ("ref", "val") and o.cls and self.repo.has_class(o.cls):
             recv = o if o.k == "ref" else self.unbox(o.t, o.cls, st)
             return [x for x, _ in self.call_method(recv, "__setitem__", [i, v], {}, st, node)]
+        if o.k in ("ref", "val") and (o.cls, "__setitem__") in self.ext_methods:
+            return [x for x, _ in self.ext_methods[(o.cls, "__setitem__")](self, st, o, [i, v], {}, node)]
         if o.k in ("ref", "val") and o.cls == "dict":
             self.dict_store(st, self.as_ref(o, st), i, v)
             return [st]
